@@ -26,7 +26,11 @@ CHECKS = {
         text="Machine-checked proof that in every reachable state the writer's mapped region is contiguous, inside the buffer and disjoint from "
              "every byte any reader has mapped or not yet consumed (including exactly-full and empty-at-wrap states), that a mapped slice is "
              "committed data and that no operation changes an unread cell (slice_stable over any op sequence); tied to the code by the same "
-             "differential run as C01 with a scribbling writer (0xEE over every region at once), slice copies compared at unmap, and ASan.",
+             "differential run as C01 with a scribbling writer (0xEE over every region at once), slice copies compared at unmap, and ASan. "
+             "The theorems' precondition - ONE writer per channel - is checked at the runtime level by a second stage: the whole runtime "
+             "(acquire.c, source/filter/sink, channel.c from the working tree) under the deterministic scheduler, plain / aborted / monitored / "
+             "averaged runs and runs in which frame averaging is switched by acquire_configure while running; no queue may ever have two threads "
+             "holding a write mapping (this stage found defect D30, repaired in /repo a5ce3b0).",
         note=TB + "Same modelling assumptions as C01. A consumer reading after its unmap is out of scope. Axioms: none.",
         technique="Coq invariant proof (region/unread disjointness, cell stability); differential with scribbling writer + ASan"),
     "C03": dict(
@@ -100,7 +104,8 @@ CHECKS = {
              "C07_winddown_poll_bound, C07_winddown_client_neutral), and while a worker is alive some worker event that decreases the measure "
              "is enabled - no deadlock (C07_winddown_no_deadlock; invariant group 5 relates the stop flags to the program counters); the same "
              "certificate, with a measure that also counts the frames the source may still deliver, for the whole time acquire_stop waits for "
-             "the workers, plain stop of a finite acquisition included (C07_stop_progress, C07_stop_poll_bound, C07_stop_no_deadlock). Fairness "
+             "the workers, plain stop of a finite acquisition included (C07_stop_progress, C07_stop_poll_bound - there a poll, which includes a "
+             "camera frame call that returns no frame, adds at most 20 -, C07_stop_no_deadlock). Fairness "
              "of the OS scheduler, the wake-up of a blocked writer (C03) and the passing of time remain assumptions; the deterministic "
              "scheduler's deadlock / step-limit detector checks the real runtime on every run. Tied to the code by the trace-acceptance check of "
              "C04 with abort/stop at random scheduling points, triggers, unbounded acquisitions, averaging on/off, followed by further acquisitions.",
